@@ -150,7 +150,7 @@ def generate(rs: int, tier: str, index: int) -> dict:
         elif kind == "bindex":
             c = _gen_index_case(ch.sub("c"))
             c.pop("graded"), c.pop("reverse")
-            step = dict(c, id=0, k="bindex", ordering="".join(x for x in "GRI" if ch.chance(0.5)), mutate_first=ch.chance(0.3))
+            step = dict(c, id=0, k="bindex", ordering="".join((x.lower() if ch.chance(0.3) else x) for x in ch.shuffle(list("GRI")) if ch.chance(0.5)), mutate_first=ch.chance(0.3))
         elif kind == "monomial":
             c = _gen_index_case(ch.sub("c"))
             if c["dimensions"] > 3 and not c.get("big"):
@@ -373,7 +373,7 @@ class Runner:
             kwargs["cross_truncation"] = numpy.float64(ctv) if not isinstance(ctv, (list, tuple)) else [numpy.float64(v) for v in ctv]
         if kind == "bindex":
             ordering = step["ordering"]
-            graded, reverse, inverse = "G" in ordering, "R" not in ordering, "I" in ordering
+            graded, reverse, inverse = "G" in ordering.upper(), "R" not in ordering.upper(), "I" in ordering.upper()  # (any case, any letter order)
             func = lambda: numpoly.bindex(ordering=ordering, **kwargs)
         else:
             graded, reverse, inverse = step["graded"], step["reverse"], False
